@@ -109,6 +109,10 @@ def xml_for(scene, offsets, v):
             return s.replace("&", "&amp;").replace("<", "&lt;").replace(">", "&gt;")
         if v == 3:
             return "".join(f"&#{ord(ch)};" for ch in s)
+        if v == 2 and len(s) >= 2:
+            # legal lexical form: a comment and a processing instruction inside the element split its text into several nodes
+            h = len(s) // 2
+            return f"<![CDATA[{s[:h]}]]><!-- c --><?pi x?><![CDATA[{s[h:]}]]>"
         return f"<![CDATA[{s}]]>"
     nsdecl = f" xmlns:e57={q}{E57NS}{q}" if v == 2 else f" xmlns={q}{E57NS}{q}"
     exts = sorted({r["ns"]["some"] for pc in scene["pcs"] for r in pc["proto"] if "some" in r["ns"]})
@@ -119,7 +123,7 @@ def xml_for(scene, offsets, v):
     parts.append(f"<{pfx}e57Root type={q}Structure{q}{nsdecl}>")
     parts.append(el("formatName", "String", text("ASTM E57 3D Imaging Data File")))
     parts.append(el("guid", "String", text(scene["guid"])))
-    parts.append(el("versionMajor", "Integer", num(1, v)))
+    parts.append(el("versionMajor", "Integer", ("<!-- c -->" if v == 2 else "") + num(1, v)))
     parts.append(el("versionMinor", "Integer", "0"))
     d3 = []
     for pc, off in zip(scene["pcs"], offsets):
